@@ -1,6 +1,7 @@
 (** C28 — Chain holds no replayed, expired or mis-signed transactions: theorem statements. *)
 From Coq Require Import List ZArith NArith Bool.
 From C33 Require Import C28.Model C28.Spec C28.Defs C28.Proofs C28.ProofsSig C28.ProofsEx C28.ProofsNode C28.ProofsNodeFix.
+From C33 Require Import C28.ModelMem C28.ProofsMem.
 Import ListNotations.
 Open Scope Z_scope.
 
@@ -115,3 +116,22 @@ Proof.
   exact (conj A (conj B (conj C (conj D E)))).
 Qed.
 Print Assumptions C28_hypotheses_satisfiable.
+
+(** ** BlockChain.GetBlock reads through the in-memory block cache ([run_m]: every operation runs
+    with some blocks in memory): whichever blocks are in memory, the state after the history is
+    the one of [run], to which all theorems above apply.  In particular the window cache is
+    refilled on a disconnection also when the block that comes back is not in memory. *)
+
+Theorem C28_block_cache_unobservable : forall c ops s, mems_ok c s ops ->
+  run_m c s ops = run c s (map snd ops).
+Proof. exact block_cache_unobservable. Qed.
+Print Assumptions C28_block_cache_unobservable.
+
+Theorem C28_block_cache_nonvacuous :
+  mems_ok m_cfg (init m_gen) (m_ops [m_b4]) /\ mems_ok m_cfg (init m_gen) (m_ops [m_b4; m_b2])
+  /\ (let s := run_m m_cfg (init m_gen) (firstn 4 (m_ops [m_b4])) in
+      map b_id (chain s) = [3%N; 2%N; 1%N] /\ cache s = [(2, 1%N)])
+  /\ map b_id (chain (run_m m_cfg (init m_gen) (m_ops [m_b4]))) = [3%N; 2%N; 1%N]
+  /\ snd (connect_peer m_cfg (run_m m_cfg (init m_gen) (firstn 4 (m_ops [m_b4]))) [] m_b5) = EDup.
+Proof. exact mems_satisfiable. Qed.
+Print Assumptions C28_block_cache_nonvacuous.
